@@ -232,6 +232,48 @@ func testC14API(t *testing.T, kind sim.Kind) {
 		nontrivial := false
 		var canon strings.Builder
 		for i := 0; i < n; i++ {
+			if rapid.IntRange(0, 5).Draw(c.rt, "istx") == 0 {
+				// a transaction of several calls anywhere in the history: its operations are encoded together when
+				// it ends, after the later calls of the same transaction have run
+				tx := sim.Tx{Tag: genString(c.rt, "tag"), FailAt: -1}
+				shadow := pm.clone()
+				for j, k := 0, rapid.IntRange(1, 4).Draw(c.rt, "txlen"); j < k; j++ {
+					call := genC03Call(c.rt, shadow)
+					ex := shadow.expect(call)
+					if !sim.Mutating(call.M) || ex.class == mustErr {
+						continue
+					}
+					tx.Calls = append(tx.Calls, call)
+					if ex.class == mustOK && ex.apply != nil {
+						ex.apply()
+					}
+				}
+				c.j.add(c03Action{K: "tx", Tx: &tx})
+				canon.WriteString(fmt.Sprintf("tx(%d calls);", len(tx.Calls)))
+				if kind == sim.Document {
+					pm.doc.beginTx()
+				}
+				rs, txErr, pan, _ := w.Transaction(0, tx)
+				if pan != nil {
+					c.failf("transaction panicked: %v", pan)
+				}
+				if txErr != nil {
+					c.failf("a transaction whose body returns nil failed: %v", txErr)
+				}
+				for j, r := range rs {
+					if ex := pm.expect(tx.Calls[j]); r.Err == nil && r.NavErr == nil && ex.apply != nil {
+						ex.apply()
+					}
+				}
+				if kind == sim.Document {
+					pm.doc.endTx()
+				}
+				labels["transaction"] = true
+				if len(tx.Calls) >= 2 {
+					labels["transaction-of->=2-operations"] = true
+				}
+				continue
+			}
 			call := genC03Call(c.rt, pm)
 			if !sim.Mutating(call.M) {
 				continue
